@@ -18,7 +18,7 @@ import (
 
 // C20 — an envelope object reflects its last successful signing or its parsed bytes. (Engine E3: histories.)
 
-var c20Ops = []string{"sign-A", "sign-B", "sign-fail-before-signer", "sign-fail-in-signer", "sign-fail-at-timestamping", "sign-fail-declared-key-spec-other-than-leaf", "sign-fail-after-signer", "sign-signature-by-another-key", "verify", "content"}
+var c20Ops = []string{"sign-A", "sign-B", "sign-fail-before-signer", "sign-fail-in-signer", "sign-fail-at-timestamping", "sign-fail-declared-key-spec-other-than-leaf", "sign-fail-after-signer", "sign-signature-by-another-key", "another-object-signs-C", "verify", "content"}
 
 // failingTimestamper is a tspclient.Timestamper whose authority is down: the inner envelope has already signed when it is asked.
 type failingTimestamper struct{}
@@ -318,6 +318,31 @@ func c20Body(c *mc.Ctx, st c20Start, depth int) {
 		switch op {
 		case "verify", "content":
 			// observation only (check() performs both twice)
+		case "another-object-signs-C":
+			// a different envelope object of the same format signs a request of another shape (signing-authority scheme, expiry, two
+			// critical attributes): this object is not involved and must show what it showed before
+			func() {
+				defer func() {
+					if r := recover(); r != nil {
+						if he, ok := r.(mc.HarnessError); ok {
+							panic(he)
+						}
+						c.Fail(fmt.Sprintf("C20 %s panic in Sign(another object)", mediaShort(st.media)), "history %v: %v", hist, r)
+					}
+				}()
+				other, err := signature.NewEnvelope(st.media)
+				if err != nil {
+					return
+				}
+				req := c20Request("A", st)
+				req.SigningScheme = signature.SigningSchemeX509SigningAuthority
+				req.Expiry = pki.Now.Add(100 * time.Hour)
+				req.Payload.Content = []byte(`{"request":"C"}`)
+				req.ExtendedSignedAttributes = []signature.Attribute{{Key: "io.example.c1", Critical: true, Value: "c1"}, {Key: "io.example.c2", Critical: true, Value: "c2"}}
+				if _, err := other.Sign(req); err != nil {
+					panic(mc.HarnessError{Msg: "C20: request C refused: " + err.Error()})
+				}
+			}()
 		default:
 			which := map[string]string{"sign-A": "A", "sign-B": "B", "sign-fail-before-signer": "fail-before", "sign-fail-in-signer": "fail-in", "sign-fail-at-timestamping": "fail-ts", "sign-fail-declared-key-spec-other-than-leaf": "fail-spec", "sign-fail-after-signer": "fail-after", "sign-signature-by-another-key": "wrong-key"}[op]
 			req := c20Request(which, st)
@@ -385,7 +410,7 @@ func c20Body(c *mc.Ctx, st c20Start, depth int) {
 func init() {
 	register(&mc.Check{
 		ID: "C20", Title: "An envelope object reflects its last successful signing or its parsed bytes", DesignRef: "DESIGN.md §4 C20",
-		Rule: "Engine E3: every history up to length 4 (quick) / 5 (thorough) (one less with a local signer) over {sign A, sign B, sign failing before the signer is invoked, failing inside the inner envelope before signing, failing at timestamping (after the signer ran), failing after the inner envelope (chain invalid at the signing time), an external signer whose signature value was made with another key, verify, content} on one envelope object, " +
+		Rule: "Engine E3: every history up to length 4 (quick) / 5 (thorough) (one less with a local signer) over {sign A, sign B, sign failing before the signer is invoked, failing inside the inner envelope before signing, failing at timestamping (after the signer ran), failing after the inner envelope (chain invalid at the signing time), an external signer whose signature value was made with another key, another envelope object signing a request of another shape, verify, content} on one envelope object, " +
 			"from a new, a parsed valid and a parsed tampered envelope, both formats, local and remote signer; each history is replayed on a fresh object (no state merging) and after every operation Verify and Content are called twice and compared with a five-state reference machine " +
 			"(empty / parsed-valid / parsed-tampered / signed-A / signed-B, plus signed-unverifiable when the library returns bytes for the wrong-key signer): purity, no-signature error when empty, content of the last successful signing equal to a fresh parse of the returned bytes, and a failed signing never observable.",
 		Assumptions: []string{"after a failed signing the model follows whichever of the two allowed observations (previous state / no signature) the object shows"},
